@@ -57,6 +57,33 @@ Proof.
   - apply Nat.leb_gt in E. apply Z.leb_gt. lia.
 Qed.
 
+Lemma Z_of_nat_ltb (a b : nat) : (Z.of_nat a <? Z.of_nat b)%Z = (a <? b)%nat.
+Proof.
+  destruct (a <? b)%nat eqn:E.
+  - apply Nat.ltb_lt in E. apply Z.ltb_lt. lia.
+  - apply Nat.ltb_ge in E. apply Z.ltb_ge. lia.
+Qed.
+
+(* the search returns an index inside [0, len] whatever the list (sorted or not) *)
+Lemma search_loop_range : forall fuel a x i j k,
+  (i <= j)%nat -> search_loop fuel a x i j = Val k -> (i <= k <= j)%nat.
+Proof.
+  induction fuel as [|f IH]; intros a x i j k Hij H; cbn [search_loop] in H.
+  - destruct (i <? j)%nat eqn:E; [discriminate|]. inversion H; subst. apply Nat.ltb_ge in E. lia.
+  - destruct (i <? j)%nat eqn:E.
+    + apply Nat.ltb_lt in E.
+      assert (Hh : (i <= (i + j) / 2 < j)%nat).
+      { split; [apply Nat.div_le_lower_bound; lia|apply Nat.div_lt_upper_bound; lia]. }
+      destruct (nth_error a ((i + j) / 2)) as [u|]; [|discriminate].
+      destruct (String.ltb u x).
+      * apply IH in H; lia.
+      * apply IH in H; lia.
+    + inversion H; subst. lia.
+Qed.
+
+Lemma search_strings_le a x k : search_strings a x = Val k -> (k <= List.length a)%nat.
+Proof. intro H. apply search_loop_range in H; lia. Qed.
+
 Theorem gen_way_polygon_ok (T : list raw_rule) (nodes : list waynode) (ts : tags) :
   gen_way_polygon T nodes ts = res_opt (way_polygon_wn (map decode_rule T) nodes ts).
 Proof.
@@ -72,29 +99,34 @@ Proof.
   rewrite !gen_tags_find_ok.
   destruct (String.eqb (find "area" ts) "no"); [reflexivity|].
   destruct (String.eqb (find "area" ts) ""); cbn [negb]; [|reflexivity].
-  (* the rule loop *)
+  (* the rule loop: the script only uses the tests the model makes, not how the source spells
+     or nests them (inline chain, switch, or the helpers matches / sortedContains) *)
   induction T as [|c T IH]; [reflexivity|].
-  rewrite loop_fold_cons. cbn [map rule_loop]. rewrite gen_tags_find_ok.
+  rewrite loop_fold_cons. cbn [map rule_loop]. cbv zeta. rewrite ?gen_tags_find_ok.
   change (rkey (decode_rule c)) with (rr_key c).
   set (v := find (rr_key c) ts).
-  destruct (String.eqb v "" || String.eqb v "no"); [exact IH|].
   unfold rule_fires.
   change (rcond (decode_rule c)) with (decode_cond (rr_cond c)).
-  change (rvalues (decode_rule c)) with (rr_values c). unfold decode_cond.
-  destruct (String.eqb (rr_cond c) cond_all); [reflexivity|].
-  destruct (String.eqb (rr_cond c) cond_whitelist).
-  { unfold search_strings_z. destruct (search_strings (rr_values c) v) as [i| |]; try reflexivity.
-    rewrite Z_of_nat_eqb, get_at_nat. cbn [oand].
-    destruct (i =? List.length (rr_values c))%nat; cbn [negb]; [exact IH|].
-    destruct (nth_error (rr_values c) i) as [u|]; cbn [olift2]; [|reflexivity].
-    destruct (String.eqb u v); [reflexivity|exact IH]. }
-  destruct (String.eqb (rr_cond c) cond_blacklist).
-  { unfold search_strings_z. destruct (search_strings (rr_values c) v) as [i| |]; try reflexivity.
-    rewrite Z_of_nat_eqb, get_at_nat. cbn [oor].
-    destruct (i =? List.length (rr_values c))%nat; [reflexivity|].
-    destruct (nth_error (rr_values c) i) as [u|]; cbn [olift2]; [|reflexivity].
-    destruct (String.eqb u v); cbn [negb]; [exact IH|reflexivity]. }
-  exact IH.
+  change (rvalues (decode_rule c)) with (rr_values c). unfold decode_cond, search_strings_z.
+  Local Ltac fin IH := cbn [oand oor olift2 option_map negb andb orb]; first [reflexivity | exact IH].
+  Local Ltac searched IH c v :=
+    let i := fresh "i" in let Es := fresh "Es" in let Hle := fresh "Hle" in let Hlt := fresh "Hlt" in
+    destruct (search_strings (rr_values c) v) as [i| |] eqn:Es; [|fin IH|fin IH];
+    pose proof (search_strings_le _ _ _ Es) as Hle;
+    assert (Hlt : (i <? List.length (rr_values c))%nat = negb (i =? List.length (rr_values c))%nat)
+      by (destruct (i =? List.length (rr_values c))%nat eqn:E;
+          [apply Nat.eqb_eq in E; rewrite E; apply Nat.ltb_irrefl
+          |apply Nat.eqb_neq in E; apply Nat.ltb_lt; lia]);
+    rewrite ?Z_of_nat_eqb, ?Z_of_nat_ltb, ?get_at_nat, ?Hlt;
+    destruct (i =? List.length (rr_values c))%nat; [fin IH|];
+    destruct (nth_error (rr_values c) i); [|fin IH];
+    cbn [oand oor olift2 option_map negb andb orb];
+    match goal with |- context [String.eqb ?u v] => destruct (String.eqb u v) end; fin IH.
+  destruct (String.eqb v "" || String.eqb v "no"); [fin IH|].
+  destruct (String.eqb (rr_cond c) cond_all); [fin IH|].
+  destruct (String.eqb (rr_cond c) cond_whitelist); [searched IH c v|].
+  destruct (String.eqb (rr_cond c) cond_blacklist); [searched IH c v|].
+  fin IH.
 Qed.
 
 (* with the table of the code as it is now: the raw table is the source table with each value
